@@ -7,7 +7,9 @@
 // pomelo.ServiceCreateAcceptors adds minus the socket acceptors), real
 // session.ClientSession objects over an in-memory acceptor.PlayerConn — and a
 // scripted raw pomelo client per connection.  Bypassed (hence not covered):
-// TCP/WS acceptors, actor `remote`, etcd.
+// TCP/WS socket listeners, actor `remote`, etcd.  Node.Connect builds the session
+// directly; Node.Accept queues connections in an in-memory acceptor.Acceptor and
+// lets the REAL accept loop pomelo.StartAcceptor build the sessions.
 //
 // Usage (inside synctest.Test):
 //
@@ -82,6 +84,8 @@ type Node struct {
 	mu      sync.Mutex
 	logs    map[string][]string
 	clients []*Client
+	// in-memory acceptors started by Accept, per front service
+	acceptors map[string]*memAcceptor
 }
 
 type svc struct {
